@@ -1,6 +1,7 @@
 import CnvVerif.Driver.Json
 import CnvVerif.Model.Tile
 import CnvVerif.Model.TileFallback
+import CnvVerif.Driver.TileOutlierExt5
 open Lean
 namespace CnvVerif.Drv
 
@@ -76,6 +77,6 @@ def handleTile (op : String) (inp : Json) (impl : Option Json) : R (Option Json)
           | _, _ => pure Json.null
         | none => pure Json.null)
       pure (some (obj [("kind", strJ "table"), ("out", arrJ (o.map segOJ)), ("spec", spec)]))
-  | _ => pure none
+  | _ => handleTileOutl op inp impl  -- round 5: op `outlier` (Driver/TileOutlierExt5.lean)
 
 end CnvVerif.Drv
